@@ -718,6 +718,16 @@ func (env *specEnv) evalCall(x *SCall) TV {
 		}
 		u.global(fmt.Sprintf("(declare-fun %s (Real) Real)", name))
 		return TV{T: app(name, t), Sort: "Real"}
+	case "called": // called("text"): a call with this source text has been executed on the way here
+		argn(1)
+		ts, ok := x.Args[0].(*SStr)
+		if !ok || env.st == nil {
+			env.fail("called needs a string")
+		}
+		if !env.fc.calledRefs[normText(ts.V)] {
+			env.fail("called(%q): not registered", ts.V)
+		}
+		return TV{T: env.fc.hget(env.st, calledKey(ts.V)), Sort: "Bool"}
 	case "incase": // incase("text"): the point of evaluation lies in the switch arm whose case list is text
 		argn(1)
 		ts, ok := x.Args[0].(*SStr)
